@@ -130,9 +130,12 @@ func readBatch(c *fw.Ctx, id, engine string, setup []bt.Op, tag func(*bt.Op) str
 	h := w.Hash()
 	c.State(h)
 	n := 0
+	nfail := 0
 	var earlier []bt.Op
 	gen(func(o bt.Op) {
-		if w.drv.Poisoned {
+		if w.drv.Poisoned || nfail >= 25 {
+			// 25 wrong answers in one batch: the instance is beyond judging (e.g. a read that damages what is stored);
+			// the remaining requests of the batch would only repeat the report at great cost
 			return
 		}
 		defer func() { earlier = append(earlier, o) }()
@@ -146,8 +149,14 @@ func readBatch(c *fw.Ctx, id, engine string, setup []bt.Op, tag func(*bt.Op) str
 		c.Trace(1)
 		c.Trans(1)
 		if m != "" {
+			nfail++
 			sig := fmt.Sprintf("%s:%s:%s:%s", id, engine, cl, tag(&o))
 			sc := seqCase{Engine: engine, Setup: setup, Ops: []bt.Op{o}}
+			if c.SigRecorded(sig) {
+				c.Violate(sig, m, sc, nil) // counted; the artefact of this signature exists already
+				c.Outcome("violation:" + cl)
+				return
+			}
 			if s1, _ := replaySeq(c, id, sc, tag); s1 != sig && len(earlier) > 0 {
 				// on a fresh instance the request is answered correctly: what went wrong depends on the read-only requests
 				// sent before it (something they should not have left behind); the artefact carries them all
